@@ -191,8 +191,9 @@ def fold_squarers(ck: Checker, rule: str, bench: NumBench | None = None):
         cases += [(24, 0, False), (33, 0, False), (48, 0, False)]
     total = 0
     for fname in ('add_square', 'add_square_pow2_m1'):
-        # (add_square splits its operand from 48 bits on: that width is instantiated in the quick tier as well)
-        total += _instances(ck, bench, rule, SQ, fname, f'{fname} instantiated', f'{fname}: the returned bits decode to a^2', cases + ([(48, 0, False)] if fname == 'add_square' and ck.tier == 'quick' else []), spec, unary=True)
+        # (add_square splits its operand from 48 bits on, except at 49 and 53: an even and an odd splitting width are instantiated
+        # in the quick tier as well)
+        total += _instances(ck, bench, rule, SQ, fname, f'{fname} instantiated', f'{fname}: the returned bits decode to a^2', cases + ([(48, 0, False), (51, 0, False)] if fname == 'add_square' and ck.tier == 'quick' else ([(51, 0, False)] if fname == 'add_square' else [])), spec, unary=True)
     ck.notes['squarer_evaluations'] = total
     ck.assume('squarers are instantiated for the listed widths only; widths 12 and above are decided on a fixed sample of operand values')
     return bench
